@@ -26,6 +26,7 @@ fn spaces(tier: Tier) -> Vec<Space> {
     s.updates = small_updates();
     s.urgencies = vec![Urg::None, Urg::Low, Urg::High];
     s.avoids = vec![false, true];
+    s.batches = true;
     v.push(Space { name: "R2-urgency", sys: s, depth: if q { 5 } else { 7 } });
     let mut s = SyncSys::new(2);
     s.c12 = true;
